@@ -182,6 +182,42 @@ def main():
                         check(bits(ir.serde.deserialize_tensor(p2).numpy()) == bits(ref.numpy()), f"{where}: proto round trip differs")
                     except Exception as e:  # noqa: BLE001
                         failures.append(f"{where}: raised {e!r}")
+        # framework adapter: torch tensors (whole storage, views starting inside a storage, strided, lazily conjugated /
+        # negated views): bytes == the bytes of the values numpy() reports; tofile == tobytes
+        try:
+            import torch
+            from onnx_ir import tensor_adapters
+        except Exception:  # noqa: BLE001
+            torch = None
+        if torch is not None:
+            base = torch.arange(24, dtype=torch.float32).reshape(4, 6) - 7.5
+            cases = [("whole", base), ("row view", base[1]), ("rows 1:3", base[1:3]), ("narrow", base.narrow(1, 2, 3)), ("transposed", base.t()),
+                     ("chunk[1]", base.chunk(2)[1]), ("unbind[2]", base.unbind(0)[2]), ("int64 view", (base * 3).to(torch.int64)[2:]),
+                     ("int8 view", (base * 3).to(torch.int8)[1:]), ("float16 view", base.to(torch.float16)[1:3]),
+                     ("bfloat16 view", base.to(torch.bfloat16)[3]), ("scalar", base[2, 3]), ("empty", base[0:0])]
+            cplx = torch.tensor([1 + 2j, 3 - 4j, -5 + 0.5j], dtype=torch.complex64)
+            cases += [("complex", cplx), ("complex conj view", cplx.conj()), ("complex slice conj", cplx[1:].conj())]
+            if hasattr(base, "_neg_view"):
+                cases.append(("neg view", base[1]._neg_view()))
+            for label, tt in cases:
+                where = f"torch adapter {label} ({tt.dtype})"
+                distinct.add(("torch", label))
+                try:
+                    t = tensor_adapters.TorchTensor(tt)
+                    if tt.dtype == torch.bfloat16:
+                        want = tt.detach().contiguous().view(torch.int16).numpy().tobytes()
+                    else:
+                        want = np.ascontiguousarray(tt.detach().resolve_conj().resolve_neg().numpy()).tobytes()
+                    check(bytes(t.tobytes()) == want, f"{where}: tobytes() differs from the bytes of the tensor's values")
+                    check(len(bytes(t.tobytes())) == t.nbytes, f"{where}: len(tobytes()) != nbytes")
+                    bio = io.BytesIO()
+                    t.tofile(bio)
+                    check(bio.getvalue() == want, f"{where}: tofile() differs from the bytes of the tensor's values")
+                    if tt.dtype != torch.bfloat16:
+                        check(np.array_equal(t.numpy(), tt.detach().resolve_conj().resolve_neg().numpy()), f"{where}: numpy() differs")
+                        check(bytes(ir.serde.serialize_tensor(t).raw_data) == want, f"{where}: serialized raw_data differs")
+                except Exception as e:  # noqa: BLE001
+                    failures.append(f"{where}: raised {e!r}")
         # large external tensors that are NOT the last thing in their file, written to every kind of destination
         big = os.path.join(tmp, "big.bin")
         sizes = [1200 * 1001, (1 << 20) + 1, 3 * (1 << 20) + 17]
